@@ -561,3 +561,71 @@ Proof.
   apply Z.leb_le. unfold days_in_month.
   repeat match goal with |- context [if ?b then _ else _] => destruct b end; lia.
 Qed.
+
+(* ---- statements in the shape used by Properties/C17.v ------------------------------------------------ *)
+Theorem add_sub_laws i q : in_range i = true ->
+  (forall r, instant_plus_quantity i q = Ok r ->
+     instant_minus_instant r i = round_us (toQ (q_mag q)) /\ instant_minus_quantity r q = Ok i)
+  /\ (forall r, instant_minus_quantity i q = Ok r ->
+     instant_plus_quantity r q = Ok i /\ instant_minus_instant i r = round_us (toQ (q_mag q))).
+Proof.
+  intro Hi. split; intros r H.
+  - destruct (add_sub_roundtrip i q r H) as [H1 H2]. split; [exact H1|exact (H2 Hi)].
+  - exact (sub_add_roundtrip i q r Hi H).
+Qed.
+
+Theorem round_us_laws q :
+  ((inject_Z (round_us q) - q * inject_Z US_PER_SEC <= 1 # 2)%Q
+   /\ (q * inject_Z US_PER_SEC - inject_Z (round_us q) <= 1 # 2)%Q)
+  /\ (forall z, (q == z # 1000000)%Q -> round_us q = z).
+Proof. split; [apply round_us_near|apply round_us_exact]. Qed.
+
+Theorem days_laws i n :
+  (instant_plus_int i n
+     = instant_plus_quantity i {| q_mag := NInt (n * 86400); q_dims := seconds_dims |}
+   /\ instant_minus_int i n
+     = instant_minus_quantity i {| q_mag := NInt (n * 86400); q_dims := seconds_dims |})
+  /\ (forall r, instant_plus_int i n = Ok r ->
+        r = i + n * US_PER_DAY /\ in_range r = true
+        /\ date_of r = civil_from_days (day_of i + n) /\ tod_of r = tod_of i).
+Proof. split; [apply plus_int_is_days|apply plus_int_value]. Qed.
+
+Theorem fields_of_text y m d h mi s us :
+  valid_year y = true -> valid_date y m d = true -> valid_time h mi s us = true ->
+  exists i, instant_from_iso (iso_text y m d h mi s us) = Ok i /\ in_range i = true
+    /\ get_year i = y /\ get_month i = m /\ get_day i = d
+    /\ get_hour i = h /\ get_minute i = mi /\ get_second i = s
+    /\ show_instant i = iso_text y m d h mi s us.
+Proof.
+  intros Hy Hd Ht. exists (mk_instant y m d h mi s us).
+  split; [apply instant_from_iso_text; assumption|].
+  destruct (mk_instant_fields y m d h mi s us Hd Ht) as (Hdate & Hh & Hmi & Hs & Hus & Hr).
+  assert (Hshow : show_instant (mk_instant y m d h mi s us) = iso_text y m d h mi s us).
+  { unfold show_instant. rewrite Hdate. cbv zeta.
+    change (tod_of (mk_instant y m d h mi s us) / 3600000000) with (get_hour (mk_instant y m d h mi s us)).
+    change (tod_of (mk_instant y m d h mi s us) / 60000000 mod 60) with (get_minute (mk_instant y m d h mi s us)).
+    change (tod_of (mk_instant y m d h mi s us) / 1000000 mod 60) with (get_second (mk_instant y m d h mi s us)).
+    change (tod_of (mk_instant y m d h mi s us) mod 1000000) with (get_micro (mk_instant y m d h mi s us)).
+    rewrite Hh, Hmi, Hs, Hus. reflexivity. }
+  unfold get_year, get_month, get_day. rewrite Hdate.
+  cbn [fst snd]. auto 10.
+Qed.
+
+Theorem short_literal_laws :
+  (forall s, just_year s = true -> instant_from_iso s = instant_from_iso (s ++ "-01-01"))
+  /\ (forall s, just_year_month s = true -> instant_from_iso s = instant_from_iso (s ++ "-01"))
+  /\ (forall y, valid_year y = true ->
+        just_year (pad 4 y) = true /\ instant_from_iso (pad 4 y) = Ok (mk_instant y 1 1 0 0 0 0))
+  /\ (forall y m, valid_year y = true -> 1 <= m <= 12 ->
+        just_year_month (pad 4 y ++ "-" ++ pad 2 m) = true
+        /\ instant_from_iso (pad 4 y ++ "-" ++ pad 2 m) = Ok (mk_instant y m 1 0 0 0 0)).
+Proof.
+  split; [exact short_year_completion|]. split; [exact short_year_month_completion|].
+  split.
+  - intros y Hy. split; [|apply short_year_value; exact Hy].
+    unfold valid_year, MINYEAR, MAXYEAR in Hy. apply andb_true_iff in Hy as [? ?]. zb.
+    apply just_year_pad. lia.
+  - intros y m Hy Hm. split; [|apply short_year_month_value; assumption].
+    unfold valid_year, MINYEAR, MAXYEAR in Hy. apply andb_true_iff in Hy as [? ?]. zb.
+    apply just_year_month_pad; lia.
+Qed.
